@@ -76,7 +76,9 @@ def codesDistinct : Attrs → Bool
 def wfExport (c : ExportCase) : Bool :=
   codesDistinct c.path.attrs &&
   c.path.attrs.all Attr.wf &&
-  (!(isPeer c.path.src && isIbgpRole c.path.src.role) || c.path.src.remoteAsn = c.path.src.localAsn)
+  (!(isPeer c.path.src && isIbgpRole c.path.src.role) || c.path.src.remoteAsn = c.path.src.localAsn) &&
+  (!(isPeer c.path.src && (c.path.src.role = .ebgp || c.path.src.role = .confed)) ||
+     c.path.src.remoteAsn ≠ c.path.src.localAsn)
 
 def firstFail : List (Bool × String) → Verdict
   | [] => .ok
@@ -133,6 +135,12 @@ def badEbgpNexthop (c : ExportCase) (nh : Option Nh) : Bool :=
     !(c.sess.fam.isFlowspec && c.path.nh.isNone) &&
     (match nh with | some n => nhAddr n != c.sess.ctx.localAddr | none => true)
 
+/-- An RS client is an eBGP peer served transparently (RFC 7947: AS_PATH, NEXT_HOP and MED are
+    left as they are); the attributes that never leave the AS are removed for it as for any eBGP
+    peer: "LOCAL_PREF/ORIGINATOR_ID/CLUSTER_LIST/AIGP ... are removed" -/
+def badRsInternal (c : ExportCase) (out : Attrs) : Bool :=
+  c.sess.ctx.role = .rsClient && (present 5 out || present 9 out || present 10 out || present 26 out)
+
 /-- iBGP: "LOCAL_PREF is always present" -/
 def badIbgpLocalPref (c : ExportCase) (out : Attrs) : Bool :=
   isIbgpRole c.sess.ctx.role && !present 5 out
@@ -156,6 +164,12 @@ def badReflectCluster (c : ExportCase) (out : Attrs) : Bool :=
   reflected c && (match c.sess.cluster with
     | none => true
     | some cid => !(wordsOf 10 out).contains cid)
+
+/-- "reflected routes gain ORIGINATOR_ID and the cluster-id": only those do; a locally originated,
+    kernel or eBGP-learned route goes to iBGP peers with whatever ORIGINATOR_ID / CLUSTER_LIST it had -/
+def badSpuriousReflect (c : ExportCase) (out : Attrs) : Bool :=
+  isIbgpRole c.sess.ctx.role && !reflected c &&
+    (withCode 9 out != withCode 9 c.path.attrs || withCode 10 out != withCode 10 c.path.attrs)
 
 /-- "confed-eBGP peers get the member AS in a confed segment" -/
 def badConfedPath (c : ExportCase) (out : Attrs) : Bool :=
@@ -183,30 +197,56 @@ def badOpaqueNonTransitive (out : Attrs) : Bool :=
     | .opq _ f _ => f / 64 % 2 = 0
     | _ => false)
 
+/-- the sentences of the statement as a list: (is the advertisement bad?, name of the clause) -/
+def exportClauses (c : ExportCase) (nh : Option Nh) (out : Attrs) : List (Bool × String) :=
+  [ (badEcho c, "advertised-back-to-source-peer"),
+    (badNonClient c, "nonclient-ibgp-to-nonclient-ibgp"),
+    (badRsBoundary c, "crossed-route-server-boundary"),
+    (badEbgpPath c out, "ebgp-aspath-not-prepended-once-after-strip"),
+    (badEbgpInternal c out, "ebgp-internal-attribute-sent"),
+    (badEbgpMed c out, "ebgp-received-med-sent"),
+    (badEbgpNexthop c nh, "ebgp-nexthop-not-self"),
+    (badRsInternal c out, "rs-client-internal-attribute-sent"),
+    (badIbgpLocalPref c out, "ibgp-local-pref-missing"),
+    (badIbgpPath c out, "ibgp-aspath-changed"),
+    (badIbgpNexthop c nh, "ibgp-nexthop-changed"),
+    (badReflectOriginator c out, "reflected-without-originator-id"),
+    (badReflectCluster c out, "reflected-without-cluster-id"),
+    (badSpuriousReflect c out, "non-reflected-route-gained-reflection-attributes"),
+    (badConfedPath c out, "confed-member-as-not-in-confed-sequence"),
+    (badLlgr c out, "llgr-stale-community-missing"),
+    (badOpaqueTransitive c out, "unknown-transitive-not-forwarded-with-partial"),
+    (badOpaqueNonTransitive out, "unknown-nontransitive-forwarded") ]
+
 def checkExport (c : ExportCase) (o : Obs) : Verdict :=
   if !wfExport c then .ok else
   match o with
   | .other => .fail "malformed-observation"
   | .suppressed => .ok
-  | .reach _ nh out =>
-    firstFail [
-      (badEcho c, "advertised-back-to-source-peer"),
-      (badNonClient c, "nonclient-ibgp-to-nonclient-ibgp"),
-      (badRsBoundary c, "crossed-route-server-boundary"),
-      (badEbgpPath c out, "ebgp-aspath-not-prepended-once-after-strip"),
-      (badEbgpInternal c out, "ebgp-internal-attribute-sent"),
-      (badEbgpMed c out, "ebgp-received-med-sent"),
-      (badEbgpNexthop c nh, "ebgp-nexthop-not-self"),
-      (badIbgpLocalPref c out, "ibgp-local-pref-missing"),
-      (badIbgpPath c out, "ibgp-aspath-changed"),
-      (badIbgpNexthop c nh, "ibgp-nexthop-changed"),
-      (badReflectOriginator c out, "reflected-without-originator-id"),
-      (badReflectCluster c out, "reflected-without-cluster-id"),
-      (badConfedPath c out, "confed-member-as-not-in-confed-sequence"),
-      (badLlgr c out, "llgr-stale-community-missing"),
-      (badOpaqueTransitive c out, "unknown-transitive-not-forwarded-with-partial"),
-      (badOpaqueNonTransitive out, "unknown-nontransitive-forwarded")
-    ]
+  | .reach _ nh out => firstFail (exportClauses c nh out)
+
+/-! ### a route that turns LLGR-stale after it was advertised -/
+
+/-- the same case once the source's LLGR-stale flag is set -/
+def staleCase (c : ExportCase) : ExportCase :=
+  { c with path := { c.path with src := { c.path.src with llgr := true } } }
+
+/-- `exp2`: the route is offered (first observation), then its source turns LLGR-stale and the
+    changes the RIB emits are processed (second observation: nothing happened, withdrawn, or
+    advertised again).  "LLGR-stale routes carry LLGR_STALE": a route that stays advertised must be
+    advertised again, and what is sent then is judged as an advertisement of the stale route. -/
+def checkExport2 (c : ExportCase) (o1 : Obs) (o2 : Obs2) : Verdict :=
+  if !(wfExport c && isPeer c.path.src && !c.path.src.llgr) then .ok else
+  match checkExport c o1 with
+  | .fail x => .fail x
+  | .ok =>
+    match o2 with
+    | .other => .fail "malformed-observation"
+    | .nothing => (match o1 with
+        | .reach _ _ _ => .fail "llgr-stale-route-not-readvertised"
+        | _ => .ok)
+    | .withdrawn => .ok
+    | .reach pid nh out => checkExport (staleCase c) (.reach pid nh out)
 
 /-- "a route whose AS_PATH contains the local AS (or confederation id) ... is never installed" -/
 def rxAsLoop (c : RxCase) : Bool :=
@@ -230,5 +270,63 @@ def checkRx (c : RxCase) (installed : Bool) : Verdict :=
     (installed && rxOriginatorLoop c, "originator-loop-route-installed"),
     (installed && rxClusterLoop c, "cluster-loop-route-installed")
   ]
+
+/-! ### wire cases: the router's configuration decides what the sessions are -/
+
+/-- the local AS of a session -/
+def wLocalAs (w : WireCase) (p : PeerCfg) : Nat := if p.localAsn ≠ 0 then p.localAsn else w.asn
+
+/-- what a neighbour is to this router: a route-server client when configured so; an iBGP peer
+    (route-reflector client when configured so) when it is in the local AS; a confederation-eBGP
+    peer when its AS is another member of the confederation; otherwise an eBGP peer -/
+def wRole (w : WireCase) (p : PeerCfg) : Role :=
+  if p.rs then .rsClient
+  else if p.remoteAsn = wLocalAs w p then (if p.rrc then .rrClient else .ibgp)
+  else match w.confed with
+    | some (_, ms) => if ms.contains p.remoteAsn then .confed else .ebgp
+    | none => .ebgp
+
+def wConfedId (w : WireCase) : Nat := match w.confed with | some (id, _) => id | none => 0
+
+/-- "the local cluster-id": the configured one, the router-id otherwise (RFC 4456 §7); it is a
+    property of the router, whatever the session the route arrives on -/
+def wClusterId (w : WireCase) (p : PeerCfg) : Nat := p.cluster.getD w.rid
+
+/-- The route as received: unrecognised optional non-transitive attributes are ignored (RFC 4271
+    §5); LOCAL_PREF, ORIGINATOR_ID and CLUSTER_LIST from an external neighbour (eBGP peer,
+    route-server client) are ignored (RFC 4271 §5.1.5, RFC 7606 §7.9, §7.10). -/
+def wReceived (w : WireCase) : Attrs :=
+  let kept := w.attrs.filter (fun a => match a with
+    | .opq _ f _ => f / 64 % 2 = 1
+    | _ => true)
+  if wRole w w.src = .ebgp ∨ wRole w w.src = .rsClient then
+    kept.filter (fun a => !(a.code = 5 ∨ a.code = 9 ∨ a.code = 10))
+  else kept
+
+def wRx (w : WireCase) : RxCase :=
+  ⟨wLocalAs w w.src, wConfedId w, w.rid, some (wClusterId w w.src), wRole w w.src, wReceived w⟩
+
+def wExport (w : WireCase) (d : PeerCfg) : ExportCase :=
+  { sess := ⟨⟨wRole w d, wLocalAs w d, w.localAddr, none, wConfedId w⟩, d.addr,
+             (if isIbgpRole (wRole w d) then some (wClusterId w d) else none), none, .ipv4, 1⟩,
+    path := { pid := 1, src := ⟨.peer, w.src.addr, w.src.remoteAsn, wLocalAs w w.src, w.src.rid, wRole w w.src, false⟩,
+              nh := some w.nh, attrs := wReceived w } }
+
+/-- a wire case: the loop sentence on what the RIB holds, the echo sentence on what the announcing
+    neighbour got back, and every export sentence on what the receiver was sent -/
+def checkWire (w : WireCase) (o : WireObs) : Verdict :=
+  match checkRx (wRx w) o.installed.isSome with
+  | .fail x => .fail x
+  | .ok =>
+    if o.back != .suppressed then .fail "advertised-back-to-source-peer" else
+    match w.dst with
+    | none => if o.sent != .suppressed then .fail "malformed-observation" else .ok
+    | some d =>
+      match o.sent with
+      | .suppressed => .ok
+      | .other => .fail "malformed-observation"
+      | .reach pid nh out =>
+        if o.installed.isNone then .fail "route-not-in-rib-advertised"
+        else checkExport (wExport w d) (.reach pid nh out)
 
 end Rbgp.Export.Spec
